@@ -64,6 +64,8 @@ func (l *Link) send(ctx context.Context, b []byte) error {
 	if err := ctx.Err(); err != nil {
 		return err
 	}
+	l.w.sendMu.Lock()
+	defer l.w.sendMu.Unlock()
 	l.mu.Lock()
 	defer l.mu.Unlock()
 	if l.sendErr != nil {
@@ -76,6 +78,12 @@ func (l *Link) send(ctx context.Context, b []byte) error {
 	l.wire = append(l.wire, WireRec{ID: p.ID, Data: p.Data, At: p.At, Order: l.w.order})
 	if l.blackhole {
 		l.dropped++
+		return nil
+	}
+	if l.w.free {
+		// free-running pass: the link delivers by itself
+		l.delivered++
+		l.inbox <- p.Data
 		return nil
 	}
 	l.inflight = append(l.inflight, p)
@@ -308,6 +316,7 @@ type World struct {
 	c2s     *Link
 	s2c     *Link
 	pktSeq  int
+	sendMu  sync.Mutex // serialises the global packet numbering across both links
 	order   int
 	callSeq atomic.Int64
 
@@ -326,6 +335,7 @@ type World struct {
 	reached     map[string]bool
 	foreign     []string
 	canonical   bool // the schedule has no deviation at all
+	free        bool // free-running (race pass): links deliver by themselves
 	endAt       time.Duration
 	endState    [2]string // client, server state when the run proper ended
 	endSnap     [2]gbn.VerifSnap
@@ -368,6 +378,7 @@ func (w *World) appsFinished() bool {
 
 func newWorld(s *vrt.Sched, sc *Scenario) *World {
 	w := &World{s: s, sc: sc, findKeys: map[string]bool{}, reached: map[string]bool{}, extra: map[string]any{}}
+	w.free = s.IsFree()
 	w.c2s = newLink(w, "c2s")
 	w.s2c = newLink(w, "s2c")
 	w.C = &Endpoint{Name: "client", w: w, out: w.c2s, in: w.s2c, closedAt: -1}
@@ -561,6 +572,15 @@ func safeDeserialize(b []byte) (m gbn.Message, err error) {
 
 // Quiescent implements vrt.Env: monitors, fingerprint, goal.
 func (w *World) Quiescent(s *vrt.Sched) bool {
+	if w.free {
+		// race pass: the harness must not read connection state without
+		// the connection's own locks (that would be a race of ours)
+		if !w.goalReached && w.sc.Goal(w) {
+			w.goalReached = true
+			w.goalAt = s.Now()
+		}
+		return w.goalReached && s.Now() >= w.goalAt+w.sc.IdleAfter
+	}
 	w.states = append(w.states, w.fingerprint())
 	monClosed(w)
 	for _, m := range w.sc.Monitors {
